@@ -12,6 +12,9 @@ require (
 	pgregory.net/rapid v1.3.0
 )
 
-require pault.ag/go/topsort v0.1.1 // indirect
+require (
+	github.com/xi2/xz v0.0.0-20171230120015-48954b6210f8 // indirect
+	pault.ag/go/topsort v0.1.1 // indirect
+)
 
 replace pault.ag/go/debian => /repo
